@@ -402,6 +402,8 @@ impl AsyncFleet {
 
         for attempt in 0..self.options.retry_policy.max_attempts {
             let timeout = state.config.timeout;
+            #[cfg(feature = "verif-hooks")]
+            crate::verif::probe_async("fleet_before_attempt").await;
             let call = async {
                 let client = ensure_connected(&state).await?;
                 if let Some(ref value) = params {
@@ -413,6 +415,16 @@ impl AsyncFleet {
             }
             .await;
 
+            #[cfg(feature = "verif-hooks")]
+            crate::verif::ev(format!(
+                "\"ev\":\"fleet_attempt\",\"n\":{},\"max\":{},\"res\":{:?}",
+                attempt + 1,
+                self.options.retry_policy.max_attempts,
+                match &call {
+                    Ok(_) => "ok".to_string(),
+                    Err(e) => format!("{e:?}"),
+                }
+            ));
             match call {
                 Ok(value) => {
                     return RemoteResult {
@@ -456,12 +468,24 @@ impl AsyncFleet {
 
         for attempt in 0..self.options.retry_policy.max_attempts {
             let timeout = state.config.timeout;
+            #[cfg(feature = "verif-hooks")]
+            crate::verif::probe_async("fleet_before_attempt").await;
             let call = async {
                 let client = ensure_connected(&state).await?;
                 client.call_message_with_timeout(&method, timeout).await
             }
             .await;
 
+            #[cfg(feature = "verif-hooks")]
+            crate::verif::ev(format!(
+                "\"ev\":\"fleet_attempt\",\"n\":{},\"max\":{},\"res\":{:?}",
+                attempt + 1,
+                self.options.retry_policy.max_attempts,
+                match &call {
+                    Ok(_) => "ok".to_string(),
+                    Err(e) => format!("{e:?}"),
+                }
+            ));
             match call {
                 Ok(value) => {
                     return RemoteResult {
